@@ -11,6 +11,7 @@ Per quantity type (14 catalogue types in f64 and decimal, 4 astronomical types):
   scale     from_scale / unit_from_scale for EVERY f64 x: the first unit with that scale, else None
   refunit   exactly one unit is the reference unit, it has scale one; as_qty is one of itself
 """
+import os
 import re
 
 from engine import common
@@ -95,7 +96,7 @@ def add_type(kc, q, backend, pfx, nbytes, with_strings, with_scale):
             %(cov)s
             kani::cover!(r.is_none(), "unknown symbol");
         }
-    """ % {"T": T, "U": U, "nb": nbytes, "cov": 'kani::cover!(r.is_some(), "some symbol found");' if any(len(u.symbol.encode()) <= nbytes for u in q.units) else ""}, unwind=max(n, maxsym, nbytes) + 2, key=keyp + " lookup strings<=%d" % nbytes, timeout=2400,
+    """ % {"T": T, "U": U, "nb": nbytes, "cov": 'kani::cover!(r.is_some(), "some symbol found");' if any(len(u.symbol.encode()) <= nbytes for u in q.units) else ""}, unwind=max(n, maxsym, nbytes) + 2, key=keyp + " lookup strings<=%d" % nbytes, timeout=(600 if os.environ.get("VERIF_TIER") != "thorough" else 3000),
                        sample={"harness": "lookup_strings_" + tag, "symbolic": "any UTF-8 string of <= %d bytes, any unit k" % nbytes,
                                "asserts": "Some(u) => u.symbol()==s; None => unit k has another symbol"}))
     if q.ref is not None:
@@ -208,7 +209,7 @@ def run(report, tier):
     pre_f = G.PRELUDE + "".join(G.tables(q, "f64") for q in catalogue.CATALOGUE)
     for q in catalogue.ASTRO:
         pre_f += G.tables(q, "f64").replace("const %s_" % q.name.upper(), "const A%s_" % q.name.upper())
-    synth = [synthdefs.PILE, synthdefs.STACK, synthdefs.TRI, synthdefs.TARIFF, synthdefs.DOSE, synthdefs.CHARGE, synthdefs.PRESSURE]
+    synth = [synthdefs.PILE, synthdefs.STACK, synthdefs.TRI, synthdefs.TARIFF, synthdefs.DOSE, synthdefs.CHARGE, synthdefs.BUCKET, synthdefs.PRESSURE]
     pre_f += synthdefs.SYNTH_RS + "".join(G.tables(q, "f64") for q in synth)
     kf = KaniCrate("c09f", "f64", astro=True, extra_src=pre_f)
     for q in synth:
@@ -228,7 +229,7 @@ def run(report, tier):
     for q in catalogue.CATALOGUE:
         add_type(kd, q, "dec", "", nbytes, False, False)
     import concurrent.futures as cf
-    tmo = 1200 if tier == "quick" else 3000
+    tmo = 480 if tier == "quick" else 3000
     e2_part(report, tier)          # forks its worker pool before the Kani threads start
     with cf.ThreadPoolExecutor(max_workers=2) as ex:
         f1 = ex.submit(kf.run, report, tmo, 12, 7)
